@@ -26,7 +26,7 @@ WORDS = ["pan", "eks", "wye", "zee", "a b", "x,y", "q\"r", "", "0x1F", "-1.5e3",
          "C:\\Users\\", "trail\\", "\\", "a\\tb\\", "\\\\", "\\n\\"]
 
 
-def records(r, n, safe):
+def records(r, n, safe, sparse=False):
     recs = []
     nf = r.choice([1, 2, 3, 4, 5, 5, 9, 12])
     names = ["a", "b", "c", "d", "e", "f", "g", "h", "i", "j", "k", "l"][:nf]
@@ -40,6 +40,8 @@ def records(r, n, safe):
             if safe:
                 w = "".join(ch for ch in w if ch.isalnum() or ch in "._-") or "v"
             rec.append((nm, w))
+        if sparse and len(rec) > 1 and r.chance(0.35):
+            rec.pop(r.below(len(rec)))
         recs.append(rec)
     return recs
 
@@ -56,7 +58,7 @@ def make_doc(r):
                     "yaml", "recutils", "dcf", "csv_opts", "dkvp_opts", "nidx_opts", "dkvpx", "dkvpx", "pprint_barred", "tsv", "csvlite"])
     n = r.choice([1, 2, 3, 6, 15])
     safe = fmt not in ("csv", "json", "jsonl", "csv_opts", "yaml", "dkvpx", "tsv")
-    recs = records(r, n, safe)
+    recs = records(r, n, safe, sparse=fmt in ("dkvp", "dkvp_opts", "json", "jsonl", "xtab", "yaml", "dkvpx", "recutils", "dcf") and r.chance(0.3))
     flags = []
     if fmt in ("csv", "csv_opts", "csvlite"):
         sep = ","
@@ -211,7 +213,33 @@ def mutate(r, data):
     return data[:k] + data[k:k + m] * r.choice([2, 3, 30]) + data[k + m:], "duplicate@%d+%d" % (k, m)
 
 
+def build_verbs_case(r, tier):
+    """Heterogeneous (sparse, mixed-type) but well-formed records through 1-3 verbs of the catalogue: what damaged input
+    degenerates to, generated directly.  Same oracle: no panic, no hang."""
+    import gen
+    n = r.choice([1, 2, 3, 5, 8, 20])
+    recs = gen.gen_records(r, n, sparse=True, wide=r.chance(0.15))
+    for rec in recs:
+        for _ in range(r.choice([0, 0, 1, 2])):
+            if len(rec) > 1:
+                rec.pop(r.below(len(rec)))
+        if r.chance(0.2):
+            k = r.below(len(rec))
+            rec[k] = (rec[k][0], r.choice(["", "abc", "-", "0x", "1e", "NaN", "Inf", "-0", "true", "1_000", "9223372036854775808", "{}", "[1]"]))
+    if r.chance(0.1):
+        recs.insert(r.below(len(recs) + 1), [])
+    fmt = r.choice(["dkvp", "json"])
+    text = gen.to_dkvp(recs) if fmt == "dkvp" else gen.to_json([rec for rec in recs])
+    vs = [r.choice(gen.BY_TAG[r.choice(["S", "S", "N", "N", "P"])])(r) for _ in range(r.randint(1, 3))]
+    vs = [v for v in vs if v[0] not in ("seqgen", "tee", "split")] or [["cat"]]
+    return {"kind": "verbs", "fmt": "verbs-" + fmt, "flags": ["--ijson"] if fmt == "json" else [], "data": text, "name": "in.dat", "mutations": [], "faults": [],
+            "verbs": gen.chain_args(vs), "oflags": r.choice([["--ojson"], [], ["--oxtab"], ["--opprint"], ["--ocsvlite"]]), "stdin": False,
+            "cseed": r.randint(1, 1 << 40), "nconf": 2, "big": False}
+
+
 def build_case(r, tier):
+    if r.chance(0.2):
+        return build_verbs_case(r, tier)
     flags, data, fmt = make_doc(r)
     muts = []
     nm = r.choice([0, 1, 1, 1, 2, 2, 4])
@@ -246,6 +274,13 @@ def build_case(r, tier):
     if r.chance(0.25):
         faults = [{"kind": "read_err", "path": "in.dat" if r.chance(0.8) else "__stdin__", "at": r.below(max(1, len(data))), "errno": r.choice(["EIO", "EBADF"])}]
     verbs = r.choice([["cat"], ["cat"], ["sort", "-f", "a"], ["put", "$z = NF"], ["unsparsify"], ["head", "-n", "2"], ["sec2gmt", "a"], ["stats1", "-a", "count,mode", "-f", "a"]])
+    if r.chance(0.35):
+        # whatever the (damaged) input turns into - missing fields, odd types, empty records - goes through verbs too:
+        # a Go panic there is just as much "dying on some input"
+        import gen
+        vs = [r.choice(gen.BY_TAG[r.choice(["S", "S", "N"])])(r) for _ in range(r.randint(1, 2))]
+        vs = [v for v in vs if v[0] not in ("seqgen", "tee", "split")] or [["cat"]]
+        verbs = gen.chain_args(vs)
     oflags = r.choice([["--ojson"], ["--ojson"], ["--ocsv"], [], ["--oxtab"], ["--opprint"], ["--otsv"]])
     stdin = r.chance(0.3) and not wrap
     return {"kind": "corrupt", "fmt": fmt, "flags": flags, "data": data.decode("latin1"), "name": name, "mutations": muts, "faults": faults,
